@@ -186,9 +186,11 @@ fn case(tier: Tier, case_no: usize, rng: &mut Rng, rep: &mut Report) {
     let batch: Vec<Value> = batch
         .into_iter()
         .map(|mut q| {
-            if rng.chance(0.5) {
+            // decided by the query's id, so that verbatim copies of a query stay verbatim
+            let h = hash_str(&q["qid"].to_string());
+            if h % 2 == 0 {
                 if let Some(o) = q.as_object_mut() {
-                    o.insert("note".into(), json!(*rng.pick(&NOTES)));
+                    o.insert("note".into(), json!(NOTES[(h / 2) as usize % NOTES.len()]));
                 }
             }
             q
